@@ -34,6 +34,8 @@ pub const NAME_POOL: &[&str] = &[
     "a", "b", "file1.txt", "FILE1.TXT", "*.txt", "f?le*", "[a-f]*", "data", "Data", "*", "x.y", "sub",
     // names and patterns people special-case: hidden files, match-everything spellings, well-known names
     ".*", ".hidden", "*.*", "?", "**", "[!a]*", "core", "lost+found", "Makefile", "*~", ".", "..", "-", "*.o", "*.tar.gz",
+    // letters only outside ASCII (case rules must not depend on finding an ASCII letter)
+    "\u{f1}and\u{fa}", "\u{436}\u{443}\u{43a}", "\u{416}\u{423}\u{41a}*", "\u{e9}.\u{e9}", "\u{3b1}\u{3b2}?", "1\u{e9}2",
 ];
 pub const FILE_POOL: &[&str] = &["out.txt", "a", "b", "c", "list.out", "dir/f", "./a", "A", "a/", " b", "/dev/stdout", "-", "/dev/stderr", "stdout", "-print", "-true", "-o", "!", "-depth"];
 
@@ -1346,7 +1348,35 @@ pub fn name_variants(pat: &str) -> Vec<String> {
         }
         i += 1;
     }
-    let swapped: String = m.chars().map(|c| if c.is_lowercase() { c.to_ascii_uppercase() } else { c.to_ascii_lowercase() }).collect();
+    // case-only variant, also for letters outside ASCII when the other case is a single character
+    let one = |mut it: std::char::ToUppercase| -> Option<char> {
+        let a = it.next()?;
+        if it.next().is_some() {
+            None
+        } else {
+            Some(a)
+        }
+    };
+    let swapped: String = m
+        .chars()
+        .map(|c| {
+            if c.is_ascii() {
+                if c.is_ascii_lowercase() {
+                    c.to_ascii_uppercase()
+                } else {
+                    c.to_ascii_lowercase()
+                }
+            } else if c.is_lowercase() {
+                one(c.to_uppercase()).filter(|u| u.to_lowercase().eq(std::iter::once(c))).unwrap_or(c)
+            } else {
+                let mut l = c.to_lowercase();
+                match (l.next(), l.next()) {
+                    (Some(a), None) if a.to_uppercase().eq(std::iter::once(c)) => a,
+                    _ => c,
+                }
+            }
+        })
+        .collect();
     let mut near = m.clone();
     near.push('~');
     let mut v = vec![m.clone(), swapped, near];
